@@ -12,7 +12,7 @@ from hypothesis import strategies as st
 import tracklib.core.kernel as tk
 from tracklib.algo.filtering import filter_seq
 from tracklib.core.obs import Obs
-from tracklib.core.obs_coords import ENUCoords
+from tracklib.core.obs_coords import ENUCoords, GeoCoords, ECEFCoords
 from tracklib.core.obs_time import ObsTime
 from tracklib.core.operators import Operator
 from tracklib.core.track import Track
@@ -48,6 +48,12 @@ ASSUMPTIONS = [
     "Track it RETURNS (nothing is demanded of the argument object; the unchanged code filters the argument in place and returns "
     "that same object); Track.smooth(width) / TrackCollection.smooth(width) = Gaussian kernel of that width, default boundary "
     "flag (boundaries copied), x, y and z, returns None: read on the track(s) the method was called on",
+    "the coordinate class of the track is part of the case (ENUCoords / GeoCoords / ECEFCoords): x, y, z are the three stored "
+    "components (E,N,U / lon,lat,hgt / X,Y,Z) read through getX/getY/getZ, filtered as plain numbers whatever they mean; the "
+    "filtered coordinates are read back through Track.getX/getY/getZ",
+    "the length of the signal is part of the domain up to 20000 samples (quick: up to ~4100); long signals are held in the case as "
+    "a short description (length, family, integer seed, scale, NaN positions) and expanded by a fixed integer hash, so the "
+    "oracle still recomputes every output from the case",
     "DiracKernel: all weight on the centre sample -> identity on non-NaN samples, undefined on NaN samples",
     "tolerance 1e-9 * max|x| over the window + 1e-12; window weights: sum within 1e-12 of 1, symmetric and non-negative within "
     "1e-12 of the largest weight (the outermost sample of Cubic/Spheric at width k+tiny evaluates to +-1e-17)",
@@ -98,6 +104,14 @@ def _f(v, what):
         raise Violation("output-not-a-number", "%s = %r" % (what, v))
 
 
+def _show(x, i):
+    """the signal for a message: long ones are cut to the neighbourhood of index i (the case holds the whole signal)"""
+    if len(x) <= 60:
+        return repr(x)
+    lo, hi = max(0, i - 10), min(len(x), i + 11)
+    return "(%d values) x[%d:%d]=%r" % (len(x), lo, hi, x[lo:hi])
+
+
 def compare(x, w, boundary, got, what):
     """got: the filtered signal as returned by tracklib.  Returns statistics for the class histogram."""
     n = len(x)
@@ -114,24 +128,24 @@ def compare(x, w, boundary, got, what):
             continue
         if kind[i] == "copy":
             if not (g == x[i] or (isn(g) and isn(x[i]))):
-                raise Violation("boundary-not-copied", "%s: index %d of %d (half-window %d) is %r, input is %r; x=%r w=%r" % (
-                    what, i, n, D, g, x[i], x, w))
+                raise Violation("boundary-not-copied", "%s: index %d of %d (half-window %d) is %r, input is %r; x=%s w=%r" % (
+                    what, i, n, D, g, x[i], _show(x, i), w))
             continue
         win = window_samples(x, i, D)
         scale = max(abs(v) for v in win)
         eps = REL * scale + ABS
         if isn(g) or g in (math.inf, -math.inf):
             raise Violation("nan-not-skipped" if any(isn(v) for v in x[max(0, i - D):i + D + 1]) else "output-not-finite",
-                            "%s: index %d is %r; x=%r w=%r" % (what, i, g, x, w))
+                            "%s: index %d is %r; x=%s w=%r" % (what, i, g, _show(x, i), w))
         if const and abs(g - usable[0]) > eps:
-            raise Violation("constant-changed", "%s: constant signal %r became %r at index %d; x=%r w=%r" % (
-                what, usable[0], g, i, x, w))
+            raise Violation("constant-changed", "%s: constant signal %r became %r at index %d; x=%s w=%r" % (
+                what, usable[0], g, i, _show(x, i), w))
         if g < min(win) - eps or g > max(win) + eps:
-            raise Violation("outside-window-range", "%s: index %d is %r, window samples span [%r, %r]; x=%r w=%r" % (
-                what, i, g, min(win), max(win), x, w))
+            raise Violation("outside-window-range", "%s: index %d is %r, window samples span [%r, %r]; x=%s w=%r" % (
+                what, i, g, min(win), max(win), _show(x, i), w))
         if abs(g - ref[i]) > eps:
-            raise Violation("not-weighted-mean", "%s: index %d is %r, renormalised weighted mean is %r; x=%r w=%r boundary=%r" % (
-                what, i, g, ref[i], x, w, boundary))
+            raise Violation("not-weighted-mean", "%s: index %d is %r, renormalised weighted mean is %r; x=%s w=%r boundary=%r" % (
+                what, i, g, ref[i], _show(x, i), w, boundary))
         if not isn(x[i]) and abs(g - x[i]) > eps:
             changed += 1
         elif isn(x[i]):
@@ -155,11 +169,18 @@ def derived(x):
     return {"x": list(x), "y": list(reversed(x)), "z": [2.0 * v + 1.0 for v in x], "a": [v * 0.5 - 3.0 for v in x]}
 
 
-def make_track(sig):
+CRS = {"ENU": ENUCoords, "GEO": GeoCoords, "ECEF": ECEFCoords}
+
+
+def make_track(sig, crs="ENU"):
+    """crs: the coordinate class of the positions; x, y, z are the three stored components (E,N,U / lon,lat,hgt / X,Y,Z)
+    read and written through getX/getY/getZ - setX/setY/setZ; the filter treats them as plain numbers"""
     tr = Track([], 1)
     n = len(sig["x"])
+    cls = CRS[crs]
     for i in range(n):
-        tr.addObs(Obs(ENUCoords(sig["x"][i], sig["y"][i], sig["z"][i]), ObsTime(2020, 1, 1, 0, i // 60, i % 60, 0)))
+        tr.addObs(Obs(cls(sig["x"][i], sig["y"][i], sig["z"][i]),
+                      ObsTime(2020, 1, 1, (i // 3600) % 24, (i // 60) % 60, i % 60, 0)))
     tr.createAnalyticalFeature("a", list(sig["a"]))
     return tr
 
@@ -235,7 +256,8 @@ def check_window(k, spec):
 def run_filter(case, sig, kobj):
     """-> list of (what, x, got) for every filtered signal, plus list of (name, before, after) for signals that must stay
     as they were.  A ZeroDivisionError of tracklib passes through."""
-    tr = make_track(sig)
+    crs = case.get("crs") or "ENU"
+    tr = make_track(sig, crs)
     via = case["via"]
     res, untouched = [], []
     if via == "feature":
@@ -258,7 +280,7 @@ def run_filter(case, sig, kobj):
             judged = [("", tr, sig)]
         else:
             sig2 = {"x": sig["z"], "y": sig["x"], "z": sig["y"], "a": sig["a"]}
-            tr2 = make_track(sig2)
+            tr2 = make_track(sig2, crs)
             ret = TrackCollection([tr, tr2]).smooth(width)
             judged = [("track 0 ", tr, sig), ("track 1 ", tr2, sig2)]
         for tag, t, sg in judged:
@@ -279,10 +301,57 @@ def run_filter(case, sig, kobj):
     if via in ("feature", "coord"):
         for d, get in (("x", tr.getX), ("y", tr.getY), ("z", tr.getZ)):
             untouched.append((d, sig[d], get()))
+    if crs != "ENU":
+        res = [("%s [%s track]" % (what, CRS[crs].__name__), xin, got) for what, xin, got in res]
     return res, untouched
 
 
 VIAS = ("feature", "coord", "seq", "smooth", "smooth_coll")
+
+
+def _h(seed, i):
+    """deterministic integer hash of (seed, index): the values of a long signal are a pure function of the case"""
+    return (((seed + i) * 2654435761) >> 7) & 0xFFFFFFF
+
+
+def expand_signal(xs):
+    """long signals are held in the case as a short description {"n", "mode", "seed", "scale", "c", "nan": [first, step,
+    at_end] | None} (plain JSON, a few numbers) and expanded here; same four families as the short generated signals"""
+    n, mode, seed, c = int(xs["n"]), xs.get("mode", 3), int(xs.get("seed", 0)), xs.get("c", 1)
+    s = SCALES[xs.get("scale", 1) % len(SCALES)]
+    if mode == 0:
+        out = [c * s] * n
+    elif mode == 1:
+        acc, out = 0, []
+        for i in range(n):
+            acc += _h(seed, i) % 16
+            out.append(acc * s if c % 2 == 0 else -acc * s)
+    elif mode == 2:
+        out = [(_h(seed, i) % 3) * s for i in range(n)]
+    else:
+        out = [(_h(seed, i) % 1025 - 512) * s for i in range(n)]
+    nan = xs.get("nan")
+    if nan and n:
+        first, step, at_end = int(nan[0]), max(1, int(nan[1])), nan[2]
+        for k in range(first % n, n, step):
+            out[k] = NAN
+        if at_end:
+            out[n - 1] = NAN
+    return out
+
+
+def with_signal(case):
+    """a case / use holds its signal either literally ("x") or as a description ("xspec", long signals)"""
+    if "x" not in case and case.get("xspec") is not None:
+        return dict(case, x=expand_signal(case["xspec"]))
+    return case
+
+
+def size_class(n):
+    for lim in (100, 1000, 2000, 5000):
+        if n < lim:
+            return "len<%d" % lim
+    return "len>=5000"
 
 
 def spec_in_domain(spec):
@@ -319,17 +388,21 @@ def judged_use(use, spec, kobj, w, boundary):
             und += r["undef"]
             const = const or r["const"]
     for d, before, after in untouched:
-        if len(before) != len(after) or any(not (p == q or (isn(p) and isn(q))) for p, q in zip(before, after)):
-            raise Violation("other-signal-modified", "signal '%s' was not to be filtered but changed: %r -> %r" % (d, before, after))
+        diff = [i for i, (p, q) in enumerate(zip(before, after)) if not (p == q or (isn(p) and isn(q)))]
+        if len(before) != len(after) or diff:
+            at = diff[0] if diff else 0
+            raise Violation("other-signal-modified", "signal '%s' was not to be filtered but changed: %s -> %s" % (
+                d, _show(before, at), _show(after, at)))
     return {"changed": changed, "undef": und, "const": const}
 
 
 def body_filter(case):
     reset_kernel_state()
+    case = with_signal(case)
     x = case["x"]
     spec = case["kernel"]
     via = case["via"]
-    if via not in VIAS or not x:
+    if via not in VIAS or not x or (case.get("crs") or "ENU") not in CRS:
         return {"undef": True}
     others = list(case.get("before") or []) + list(case.get("between") or [])
     if not all(spec_in_domain(sp) and sp["kind"] != "list" for sp in others) or not spec_in_domain(spec):
@@ -357,7 +430,12 @@ def body_filter(case):
     if r.get("zerodiv"):
         return {"undef": True, "cls": ["undef-zero-usable-weight(ZeroDivisionError)"]}
     wz = [0.0, 1.0, 0.0] if w is None else w
-    cls = ["via-" + via, "kernel-" + spec["kind"]]
+    crs = case.get("crs") or "ENU"
+    cls = ["via-" + via, "kernel-" + spec["kind"], "crs-" + crs, size_class(len(x))]
+    if crs != "ENU" and via in ("seq", "smooth", "smooth_coll") and any(d in "xyz" for d in (case.get("dims") or "xyz")):
+        cls.append("coordinates-of-non-ENU-track-filtered-in-place")
+    if len(x) in (999, 1000, 1001, 1023, 1024, 1025, 2047, 2048, 2049, 4095, 4096, 4097, 9999, 10000, 10001):
+        cls.append("len-at-power-of-10-or-2(+-1)")
     changed, und, const = r["changed"], r["undef"], r["const"]
     has_nan = any(isn(v) for v in x)
     if w is not None:
@@ -407,8 +485,9 @@ def body_history(case):
     cls = set()
     judged = changed = 0
     for n, use in enumerate(case["uses"]):
+        use = with_signal(use)
         j = use["k"]
-        if not (0 <= j < len(specs)) or use["via"] not in VIAS:
+        if not (0 <= j < len(specs)) or use["via"] not in VIAS or (use.get("crs") or "ENU") not in CRS:
             return {"undef": True}
         spec = specs[j]
         if use.get("set") is not None:
@@ -443,6 +522,7 @@ def body_history(case):
         judged += 1
         changed += 1 if r["changed"] else 0
         cls.add("via-" + use["via"])
+        cls.add("crs-" + (use.get("crs") or "ENU"))
         cls.add("use-boundary-filtered" if boundary else "use-boundary-copied")
         if any(f != boundary for k2, f in flags.items() if k2 != j and specs[k2]["kind"] != "list"):
             cls.add("use-while-other-kernel-has-opposite-flag")
@@ -500,6 +580,11 @@ def _route():
                      st.sampled_from(DIMS).map(lambda d: ("seq", d)), st.sampled_from(DIMS).map(lambda d: ("seq", d)))
 
 
+def _crs():
+    """coordinate class of the track (ENU as everywhere in the suite, geographic as after a GPX read, ECEF)"""
+    return st.sampled_from(["ENU", "GEO", "ECEF", "ENU", "GEO", "ECEF", "ENU"])
+
+
 def _weights():
     pos = st.sampled_from([0.125, 0.25, 0.5, 1.0, 2.0, 3.0, 5.0, 32.0, 0.1, 0.3])
     ints = st.sampled_from([1, 2, 3, 5, 32])
@@ -519,11 +604,12 @@ def _weights():
 
 
 def strat_list():
-    def with_signal(t):
-        w, extra, (via, dims) = t
+    def with_sig(t):
+        w, extra, (via, dims), crs = t
         N = len(w)
-        return _signal(N + extra, N).map(lambda x: {"kernel": {"kind": "list", "w": w}, "x": x, "via": via, "dims": dims})
-    return st.tuples(_weights(), st.sampled_from([0, 1, 2, 3, 4, 5, 6, 8, 10, 14]), _route()).flatmap(with_signal)
+        return _signal(N + extra, N).map(lambda x: {"kernel": {"kind": "list", "w": w}, "x": x, "via": via, "dims": dims,
+                                                    "crs": crs})
+    return st.tuples(_weights(), st.sampled_from([0, 1, 2, 3, 4, 5, 6, 8, 10, 14]), _route(), _crs()).flatmap(with_sig)
 
 
 def _just_above_integer(hi):
@@ -557,9 +643,9 @@ def _others():
 
 
 def strat_kernel():
-    def with_signal(t):
-        kind, width, bnd, extra, (via, dims), (before, between), intw = t
-        more = {"before": before, "between": between}
+    def with_sig(t):
+        kind, width, bnd, extra, (via, dims), (before, between), intw, crs = t
+        more = {"before": before, "between": between, "crs": crs}
         if kind == "Dirac":
             spec, N = {"kind": "Dirac", "boundary": bnd}, 3
         elif kind.startswith("Gaussian-"):
@@ -572,7 +658,8 @@ def strat_kernel():
         return _signal(N + extra, N).map(lambda x: dict({"kernel": spec, "x": x, "via": via, "dims": dims}, **more))
     kinds = sorted(KINDS) + ["Dirac", "Gaussian-smooth", "Gaussian-smooth", "Gaussian-smooth-coll"]
     return st.tuples(st.sampled_from(kinds), _width(), st.sampled_from([True, False, None]),
-                     st.sampled_from([0, 1, 2, 3, 4, 5, 6, 8, 10, 12]), _route(), _others(), st.booleans()).flatmap(with_signal)
+                     st.sampled_from([0, 1, 2, 3, 4, 5, 6, 8, 10, 12]), _route(), _others(), st.booleans(),
+                     _crs()).flatmap(with_sig)
 
 
 def strat_history():
@@ -580,7 +667,7 @@ def strat_history():
     kspec = st.tuples(st.sampled_from(kinds), st.sampled_from([1.0, 1.0, 1.5, 2.0, 1.25, 3.0]),
                       st.sampled_from([True, False, None]), _weights())
     use = st.tuples(st.integers(0, 2), st.sampled_from([0, 1, 2, 4, 7]), _route(),
-                    st.sampled_from([None, None, True, False]), st.integers(0, 2), st.sampled_from([0, 0, 0, 1, 2]))
+                    st.sampled_from([None, None, True, False]), st.integers(0, 2), st.sampled_from([0, 0, 0, 1, 2]), _crs())
 
     def build(t):
         kspecs, raw_uses, lazy = t
@@ -596,18 +683,84 @@ def strat_history():
                 specs.append({"kind": kind, "width": width, "boundary": bnd})
                 Ns.append(_win_len(kind, width))
         uses, sigs = [], []
-        for n, (k, extra, (via, dims), setflag, k2, sm) in enumerate(raw_uses):
+        for n, (k, extra, (via, dims), setflag, k2, sm, crs) in enumerate(raw_uses):
             k = k % len(specs) if n != 1 else (uses[0]["k"] + 1 + k % (len(specs) - 1)) % len(specs)   # first two uses: two different kernels
             k2 = k2 % len(specs)
             if sm and specs[k]["kind"] == "Gaussian":
                 via, dims = ("smooth", "smooth_coll")[sm - 1], ["x", "y", "z"]
-            u = {"k": k, "via": via, "dims": dims,
+            u = {"k": k, "via": via, "dims": dims, "crs": crs,
                  "set": [k2, setflag] if setflag is not None and specs[k2]["kind"] != "list" else None}
             uses.append(u)
             sigs.append(_signal(Ns[k] + extra, Ns[k]))
         return st.tuples(*sigs).map(lambda xs: {"kernels": specs, "lazy": lazy,
                                                 "uses": [dict(u, x=x) for u, x in zip(uses, xs)]})
     return st.tuples(st.lists(kspec, min_size=2, max_size=3), st.lists(use, min_size=2, max_size=4), st.booleans()).flatmap(build)
+
+
+# --- long signals: the size of the track is a generated dimension ---------------------------------
+# sizes around powers of ten / two and typical block sizes, where an implementation may switch to another code path
+SIZES_QUICK = [999, 1000, 1001, 1024, 1500, 2048, 4097]
+SIZES_THOROUGH = [99, 100, 101, 255, 256, 257, 511, 512, 513, 999, 1000, 1001, 1023, 1024, 1025, 1500, 2000, 2001, 2047, 2048,
+                  2049, 2500, 4095, 4096, 4097, 5000, 8192, 9999, 10000, 10001, 16385, 20000]
+LONG_KERNELS_QUICK = [
+    {"kind": "list", "w": [1.0, 2.0, 5.0]}, {"kind": "list", "w": [4.0, 3.0, 2.0, 1.0, 1.0]},
+    {"kind": "list", "w": [1, 2, 3, 5, 32, 2, 1]},
+    {"kind": "Gaussian", "width": 1.5, "boundary": True}, {"kind": "Triangular", "width": 2.0, "boundary": False},
+    {"kind": "Exponential", "width": 1.0, "boundary": None},
+]
+LONG_KERNELS_MORE = [
+    {"kind": "list", "w": [1.0, 1.0, 8.0]}, {"kind": "list", "w": [1.0, 2.0, 32.0, 2.0, 1.0]}, {"kind": "list", "w": [0.5, 0.0, 0.25]},
+    {"kind": "list", "w": [0.1, 0.3, 0.3, 0.1, 0.1, 0.3, 2.0, 0.125, 3.0]},
+    {"kind": "Uniform", "width": 3.0, "boundary": True}, {"kind": "Epanechnikov", "width": 4.0, "boundary": None},
+    {"kind": "Cubic", "width": 2.5, "boundary": True}, {"kind": "Spheric", "width": 3.0, "boundary": False},
+    {"kind": "Dirac", "boundary": True},
+]
+LONG_ROUTES = [("feature", ["a"]), ("coord", ["y"]), ("seq", ["x", "z", "a"])]
+LONG_NANS = [None, [7, 37, True]]
+_CRS3 = ["ENU", "GEO", "ECEF"]
+
+
+def enum_long(tier):
+    sizes = SIZES_QUICK if tier == "quick" else SIZES_THOROUGH
+    kernels = LONG_KERNELS_QUICK if tier == "quick" else LONG_KERNELS_QUICK + LONG_KERNELS_MORE
+    k = 0
+    for n in sizes:
+        for spec in kernels:
+            for via, dims in LONG_ROUTES:
+                for nan in LONG_NANS:
+                    k += 1
+                    yield {"kernel": dict(spec), "via": via, "dims": list(dims), "crs": _CRS3[k % 3],
+                           "xspec": {"n": n, "mode": 1 if k % 5 == 0 else 3, "seed": 1000 * k + n, "scale": k % len(SCALES),
+                                     "c": k, "nan": nan}}
+        if tier != "quick" or n in (1000, 2048):
+            # Track.smooth on a long track (Gaussian kernel created by the entry point, boundaries copied)
+            for width in (1.0, 2.0):
+                k += 1
+                yield {"kernel": {"kind": "Gaussian", "width": width, "boundary": None}, "via": "smooth", "dims": ["x", "y", "z"],
+                       "crs": _CRS3[k % 3], "xspec": {"n": n, "mode": 3, "seed": k, "scale": 1, "c": 1, "nan": LONG_NANS[k % 2]}}
+
+
+def _xspec(n, N):
+    """description of a long signal of length n for a window of length N (NaN at least N apart)"""
+    return st.tuples(st.sampled_from([0, 1, 2, 3, 3, 3, 3, 3]), st.integers(0, 2 ** 31), st.integers(0, len(SCALES) - 1),
+                     st.sampled_from([0, 1, 1, 2]), st.integers(0, 2000), st.sampled_from([0, 1, 5, 30, 331, 1000]),
+                     st.integers(-64, 64)).map(
+        lambda t: {"n": n, "mode": t[0], "seed": t[1], "scale": t[2], "c": t[6],
+                   "nan": [t[4], N + t[5], t[3] == 2] if t[3] else None})
+
+
+def strat_long():
+    sizes = st.tuples(st.sampled_from(SIZES_THOROUGH[9:26]), st.sampled_from([0, 0, -1, 1, -2, 2, 3, 7])).map(lambda t: t[0] + t[1])
+    lists = st.tuples(_weights(), _route()).map(lambda t: ({"kind": "list", "w": t[0]}, len(t[0]), t[1][0], t[1][1]))
+    objs = st.tuples(st.sampled_from(sorted(KINDS)), _width(), st.sampled_from([True, False, None]), _route()).map(
+        lambda t: ({"kind": t[0], "width": t[1], "boundary": t[2]}, _win_len(t[0], t[1]), t[3][0], t[3][1]))
+    smooth = st.tuples(_width(), st.sampled_from(["smooth", "smooth", "smooth_coll"])).map(
+        lambda t: ({"kind": "Gaussian", "width": t[0], "boundary": None}, _win_len("Gaussian", t[0]), t[1], ["x", "y", "z"]))
+
+    def with_sig(t):
+        n, (spec, N, via, dims), crs = t
+        return _xspec(n, N).map(lambda xs: {"kernel": spec, "via": via, "dims": dims, "crs": crs, "xspec": xs})
+    return st.tuples(sizes, st.one_of(lists, lists, lists, objs, objs, smooth), _crs()).flatmap(with_sig)
 
 
 # --- sliding windows on their own -----------------------------------------------------------------
@@ -653,6 +806,12 @@ RULE = ("list_kernels: odd weight lists of length 1..7 (asymmetric, symmetric, i
         "all created first or each right before its first use, 2..4 judged filter calls (the first two with two different kernels), "
         "a call optionally preceded by setFilterBoundary on any of the kernels; every call gets the full oracle with the flag last "
         "set on the kernel it uses; "
+        "every case / judged call draws the coordinate class of its track (ENU / geographic / ECEF); "
+        "long_signals: the same body on signals of 999 / 1000 / 1001 / 1024 / 1500 / 2048 / 4097 samples (thorough: 32 sizes from 99 to "
+        "20000, around powers of ten and two) x 6 (thorough 15) kernels (asymmetric and integer lists, kernel objects with both boundary "
+        "settings) x operate on a feature / operate on y / filter_seq on x, z and a feature x without / with isolated NaN (also on the "
+        "last fix), coordinate class rotating, enumerated; Track.smooth on long tracks; plus random sizes (one of 17 anchors 999..4097 "
+        "+ -2..7), weight lists / kernels / routes as in the short sub-checks; "
         "windows: toSlidingWindow of every kernel at widths 1..4 step 1/16 plus 5 larger widths (enumerated) and random widths up to 40. "
         "Non-trivial: the filter changes at least one value of the signal and the case involves NaN, a filtered boundary or a window "
         "of length >= 3 (histories: some call changes its signal and two different kernels are used); a window with >= 2 positive weights.  Distinct = hash of the case.")
@@ -664,6 +823,9 @@ SUBCHECKS = [
     SubCheck("windows", body_window, enum=enum_windows, strategy=strat_windows, quick=400, thorough=8000, qshards=2, tshards=4),
     SubCheck("list_kernels", body_filter, strategy=strat_list, quick=8000, thorough=200000, qshards=7),
     SubCheck("kernel_objects", body_filter, strategy=strat_kernel, quick=8000, thorough=200000, qshards=7),
+    SubCheck("long_signals", body_filter, enum=enum_long, strategy=strat_long, quick=120, thorough=2400, qshards=6,
+             rule="signals of 999..4097 (thorough 99..20000) samples: sizes around powers of ten and two x asymmetric lists / kernel "
+                  "objects x operate on a feature / on y / filter_seq x NaN x coordinate class, enumerated; plus random ones"),
     SubCheck("kernel_histories", body_history, strategy=strat_history, quick=3000, thorough=60000, qshards=4,
              rule="2..3 kernel objects and 2..4 judged filter calls in one case, flags reconfigured in between"),
 ]
